@@ -33,7 +33,7 @@ RULE = ('cases over a fixed corpus of calls (parse of harvested accepted / rejec
         'hand-written statements with target-specific literals to 7 targets; quick = a fixed sub-sample, thorough = '
         'all): (a) schedule = 2/3/4/8 threads x drawn call sequences x sharing mode {none, catalog, render} x '
         'switching {free-running with 1 us switch interval, forced hand-over at drawn line boundaries inside the '
-        'library}, (b) history = drawn sequence of 5..30 calls re-using catalog and renderer objects, (c) hashseed = '
+        'library}, (b) history = drawn sequence of 5..30 calls re-using catalog and renderer objects (incl. one predictor-metadata object planned under two predictor namespaces), (c) hashseed = '
         'every corpus call under PYTHONHASHSEED 0,1,2,3,random (each sub-process also runs the whole corpus as one '
         'long history); every result is compared with the result of the same call run first in a pristine forked '
         'process; non-trivial = (a) every thread saw another thread complete a call during one of its own calls, '
@@ -55,7 +55,7 @@ ASSUMPTIONS = ['free-running schedules: the harness does not own the GIL; a 1 us
 FLOORS = {'quick': {'__nontrivial__': 500, 'schedule:call-overlapped': 2000, 'schedule:mode:catalog': 150,
                     'schedule:mode:render': 150, 'schedule:mode:none': 150, 'schedule:switching:free': 250,
                     'schedule:switching:forced': 200, 'schedule:forced-switches-x100': 1000,
-                    'history:fail-then-ok': 150, 'history:step': 3000, 'history:calls-after-catalog-change': 150,
+                    'history:fail-then-ok': 150, 'history:step': 3000, 'history:twin-catalog-pair': 40,
                     'hashseed:suggestion-message': 300, 'hashseed:call': 2500},
           'thorough': {'__nontrivial__': 5000, 'schedule:call-overlapped': 20000, 'schedule:switching:free': 2500,
                        'schedule:switching:forced': 2000, 'history:fail-then-ok': 1500, 'history:step': 30000,
@@ -106,7 +106,19 @@ CATALOGS = {
                                                'tp3': {k: v for k, v in _ts('tp3').items() if k != 'name'}}),
     'default-int1': lambda: dict(integrations=['int', 'int1', 'int2'], default_namespace='int1',
                                  predictor_metadata=_preds(with_ns=False)),
+    # twins: the same metadata (entries without a project of their own) under another predictor namespace; a shared
+    # Env hands the twin the very same metadata object as its base (a caller that keeps one model list and plans for two projects)
+    'default-int1@proj': lambda: dict(integrations=['int', 'int1', 'int2'], default_namespace='int1', predictor_namespace='proj',
+                                      predictor_metadata=_preds(with_ns=False)),
+    'legacy@proj': lambda: dict(integrations=['int', 'int1', 'int2'], predictor_namespace='proj',
+                                default_namespace='mindsdb',
+                                predictor_metadata={'pred': {}, 'pred2': {'to_predict': ['y']},
+                                                    'tp3': {k: v for k, v in _ts('tp3').items() if k != 'name'}}),
 }
+TWINS = {'default-int1@proj': 'default-int1', 'legacy@proj': 'legacy'}
+GROUPS = {}
+for _t, _b in TWINS.items():
+    GROUPS[_t] = GROUPS[_b] = [_b, _t]
 
 PLAN_SQL = [
     # plain fetches, default namespace, CTEs whose names are also table names elsewhere in the corpus
@@ -233,6 +245,10 @@ class Env:
 
     def __init__(self, share_catalog=False, share_render=False):
         self.cat = {n: f() for n, f in CATALOGS.items()} if share_catalog else None
+        if self.cat is not None:
+            for t, b in TWINS.items():
+                self.cat[t]['predictor_metadata'] = self.cat[b]['predictor_metadata']
+                self.cat[t]['integrations'] = self.cat[b]['integrations']
         self.ren = None
         if share_render:
             from mindsdb_sql.render.sqlalchemy_render import SqlalchemyRender
@@ -870,6 +886,9 @@ def judge_history(case, col):
                                        f'step {i} {key_of(call)[:200]}: {det}; catalog changes: {what[:2]}',
                                        key_of(call)))
     classes = ['sub:history'] + ['history:changed:' + c for c in changed]
+    cats = {c.get('catalog') for c in calls if c['op'] == 'plan'}
+    if any(t in cats and b in cats for t, b in TWINS.items()):
+        classes.append('history:twin-catalog-pair')     # one metadata object planned under two predictor namespaces
     if fail_then_ok:
         classes.append('history:fail-then-ok')
     if cat_at is not None:
@@ -1009,7 +1028,7 @@ PER_CATALOG = ('plan-hand', 'plan-cte', 'plan-pred')
 def a_call(draw, weights, focus):
     cls = draw(st.sampled_from(weights))
     if cls in PER_CATALOG:
-        cls = cls + ':' + focus
+        cls = cls + ':' + (draw(st.sampled_from(GROUPS[focus])) if focus in GROUPS else focus)
     pool = _POOL.get(cls) or _POOL['parse-ok']
     return draw(st.sampled_from(pool))
 
